@@ -11,6 +11,16 @@ TRUST = ('TLC/SANY (and Apalache where named), the JSON bridge between TLC and t
          'guards the bridge. ')
 
 CHECKS = {
+    'C10': dict(
+        technique='TLA+ reference grammar and arithmetic (spec/Units.tla, result symbolic base^exp) enumerated by TLC: every character sequence up to length 4/5 over a 14-symbol alphabet, the token-level grammar (sign x magnitude x 22 prefixes + foreign x unit x unit system), QemuImgInfo size shapes; documentation tables checked as ASSUME; every case executed on string_to_bytes / QemuImgInfo with exact rational comparison',
+        category='model_checking',
+        text='The specification is an independent, executable definition of the function written from its docstring; TLC enumerates '
+             'the whole bounded input space (41k/579k strings x 3 unit systems, 15k token cases, 360 qemu size fields), checks that '
+             'the admission tables equal the documented lists and that only well-formed texts get a value, and exports each case with '
+             'its symbolic result, which the harness evaluates with fractions.Fraction and compares with the code: error class '
+             'exactly, value exactly where binary64 can represent it (else 2^-50 relative), return_int as the ceiling.',
+        design_ref='6/C10',
+        note=TRUST + "Trailing newline (regexp '$') and Unicode digits are outside the generators (observation O1)."),
     'C03': dict(
         technique='TLA+ decision function over abstract contents (spec/Detect.tla: Match per inspector, FormatsOf, Decide) with the clauses Exclusive / MultiIsError / RawOnlyAlone / AllowedOnly / Total checked by TLC on every content x allowed_formats; every content realised as bytes and read through the real InspectWrapper under six read sizes with the decision sampled after every read (no-revision) and after close, plus detect_file_format',
         category='model_checking',
